@@ -37,12 +37,44 @@ def ev_scenarios():
                             "T 1 ev_post 2"]
     S["post-unreg-post-h"] = ["O ev 1", "O ev 2", "O ev 3", "S ev_reg 1", "S ev_reg 2", "S ev_reg 3", "S spawn 1", "T 1 ev_post 3",
                               "R ev 3 0 1 ev_post 1", "R ev 3 0 1 ev_unreg 1", "R ev 3 0 1 ev_post 2"]
+    # the owner posts A and unregisters it again; the wake-up that follows finds nothing to deliver;
+    # later another thread posts B
+    S["post-unreg-idle"] = ["O ev 1", "O ev 2", "S ev_reg 1", "S ev_reg 2", "S spawn 1", "S ev_post 1", "S ev_unreg 1",
+                            "T 1 yield", "T 1 yield", "T 1 ev_post 2", "T 1 ev_post 2"]
     # the owner's event count drops to zero and rises again: the wake-up path is set up afresh
     S["reg-cycle"] = ["O ev 1", "O ev 2", "S ev_reg 1", "S ev_unreg 1", "S ev_reg 2", "S spawn 1", "T 1 ev_post 2", "T 1 ev_post 2"]
     # a second owner thread with its own loop, posted to by the main thread
     S["second-owner"] = ["O ev 1", "O ev 2", "S ev_reg 1", "S spawn 1", "T 1 iv_init", "T 1 ev_reg 2", "T 1 set_flag 2", "T 1 iv_main",
                          "T 1 iv_deinit", "S wait_flag 2", "S ev_post 2", "R ev 2 0 1 ev_unreg 2"]
     return S
+
+
+# another thread posts an event and makes a descriptor ready before the owner polls again (both arrive in
+# one batch of the kernel's answer); the event handler takes the descriptor away, or moves the object to
+# another descriptor.  (header options, body)
+MT_FD_SCEN = {
+    "ev-unreg-fd": ("keep=0 reuse=0", ["O ev 1", "O fd 1 pr", "O fd 2 pr", "S ev_reg 1", "S fd_reg 1 1 0 0", "S fd_reg 2 1 0 0", "S spawn 1",
+                                       "T 1 ev_post 1", "T 1 pwrite 2 1", "T 1 pwrite 1 1", "R ev 1 0 1 fd_unreg 2",
+                                       "R fd 1 1 0 drain 1", "R fd 2 1 0 drain 2"]),
+    "ev-move-fd": ("keep=1 reuse=1", ["O ev 1", "O fd 1 pr", "O fd 2 pr", "S ev_reg 1", "S fd_reg 1 1 0 0", "S fd_reg 2 1 0 0", "S spawn 1",
+                                      "T 1 ev_post 1", "T 1 pwrite 2 1", "R ev 1 0 1 fd_unreg 2", "R ev 1 0 1 drain 2",
+                                      "R ev 1 0 1 fd_newos 2", "R ev 1 0 1 fd_reg 2 1 0 0",
+                                      "R fd 1 1 0 drain 1", "R fd 2 1 0 drain 2"]),
+    "fd-then-ev": ("keep=0 reuse=0", ["O ev 1", "O fd 1 pr", "O fd 2 pr", "S ev_reg 1", "S fd_reg 1 1 0 0", "S fd_reg 2 1 0 0", "S spawn 1",
+                                      "T 1 pwrite 1 1", "T 1 ev_post 1", "T 1 pwrite 2 1", "R ev 1 0 1 fd_unreg 2", "R ev 1 0 1 fd_unreg 1",
+                                      "R fd 1 1 0 drain 1", "R fd 2 1 0 drain 2"]),
+}
+
+
+def mt_fd_scripts(tag, seed, per=6, methods=("epoll", "epoll-timerfd", "poll")):
+    rr = random.Random(seed * 131 + 7)
+    out = []
+    for name, (opts, body) in sorted(MT_FD_SCEN.items()):
+        for m in methods:
+            for j in range(per):
+                out.append(mk("%sm.%s.%s.%d" % (tag, name, m, j), body, m + " " + opts, det=0, seed=rr.randint(1, 1 << 30),
+                              sticky=rr.choice([0, 1, 3, 8])))
+    return out
 
 
 # scenarios with a failing registration (C07: "registration calls that report failure leave the loop as it was")
@@ -109,6 +141,9 @@ def raw_scenarios():
                    "R raw 1 0 1 sigpost 10 1 0", "R raw 2 0 1 childpost 1"]
     S["unreg"] = ["O raw 1", "O raw 2", "S raw_reg 1", "S raw_reg 2", "S spawn 1", "S raw_post 2", "T 1 raw_post 1", "T 1 raw_post 1",
                   "R raw 2 0 1 raw_unreg 1", "R raw 2 0 1 raw_reg 1", "R raw 1 0 1 raw_post 2"]
+    # a burst larger than a pipe buffer posted by the owner itself (nobody drains meanwhile): never blocks
+    S["burst-owner"] = ["O raw 1", "O raw 2", "S raw_reg 1", "S raw_reg 2", "S spawn 1", "S raw_burst 1 70000", "T 1 raw_post 2",
+                        "R raw 2 0 1 raw_burst 1 70000", "R raw 2 0 1 raw_post 2"]
     # one thread unregisters (closes descriptors) while another registers (is handed descriptor numbers)
     S["close-race"] = ["O raw 1", "O raw 2", "S raw_reg 1", "S spawn 1", "T 1 iv_init", "T 1 raw_reg 2", "T 1 set_flag 2", "T 1 iv_main",
                        "T 1 iv_deinit", "S raw_unreg 1", "S wait_flag 2", "S raw_post 2", "R raw 2 0 1 raw_unreg 2"]
